@@ -277,6 +277,15 @@ def check_faces(ctx, rng):
         uri = f'{scheme}://{host}' + (f':{port}' if port else '')
         kind = 'tcp' if scheme.lower() in ('tcp', 'tcp4', 'tcp6') else 'udp' if scheme.lower() in ('udp', 'udp4', 'udp6') else None
         uris.append((uri, (kind, host.strip('[]').lower(), port or 6363) if kind else None))
+    # unix socket paths: every first letter, short and long first segments, dots, spaces, colons, repeated letters of the scheme name
+    firsts = ['usr', 'nix', 'unix', 'u', 'n', 'i', 'x', 'xinu', 'nnn', 'opt', 'home', 'srv', 'mnt', 'Users', 'private', '.hidden', 'a:b', 'unix:', 'in it', '0', '_']
+    for i in range(ctx.n(120, 20000)):
+        segs = [firsts[i % len(firsts)] if rng.random() < 0.7 else ''.join(rng.choice('unixabcXYZ019._-: ') for _ in range(rng.randint(1, 8))).strip() or 'q']
+        segs += [''.join(rng.choice('unixsocketabc019._-') for _ in range(rng.randint(1, 9))) for _ in range(rng.randint(0, 4))]
+        path = '/' + '/'.join(segs)
+        if '//' in path or path.endswith(' '):
+            continue
+        uris.append((rng.choice(['unix://', 'unix://', 'UNIX://', 'unix:']) + path, ('unix', path, None)))
     for uri, exp in uris:
         w = {'uri': uri, 'expected': exp}
         try:
